@@ -505,6 +505,30 @@ fn main() {
         chk.absorb(stats);
         bounds["description_sites_default_config"] = json!({"len": exact, "strings": n});
     }
+    // paragraph family: 2..=4 lines, each one of a small menu (indented with spaces / a tab, blank,
+    // white space only), joined by LF: the block-string eligibility and indentation rules work on
+    // whole lines, which strings of <= 4 symbols barely form
+    const LINES: [&str; 7] = ["a", " a", "  a", "\ta", "", " ", "a "];
+    let mut paragraphs: Vec<String> = Vec::new();
+    for n in 2..=4u32 {
+        let total = en::count_exact(LINES.len() as u64, n);
+        for i in 0..total {
+            let mut seq = Vec::new();
+            en::nth_exact(LINES.len() as u64, n, i, &mut seq);
+            paragraphs.push(seq.iter().map(|&x| LINES[x]).collect::<Vec<_>>().join("\n"));
+        }
+    }
+    let stats = vcore::par_sweep(paragraphs.len() as u64, 16, |i, st| {
+        let s = &paragraphs[i as usize];
+        for site in SITES {
+            for cfg in CFGS {
+                check_one(site, cfg, s, st);
+            }
+        }
+    });
+    println!("paragraph family: {} strings of 2..=4 lines x 10 x 5", paragraphs.len());
+    chk.absorb(stats);
+    bounds["paragraph_family"] = json!({"lines": LINES, "line_counts": [2, 3, 4], "strings": paragraphs.len()});
     let family = boundary_family();
     let stats = vcore::par_sweep(family.len() as u64, 16, |i, st| {
         let s = &family[i as usize];
